@@ -222,4 +222,90 @@ theorem checkUpkeeps_tree_matches_source (a : Acc) :
   simp only [Gen.Src.c13CheckUpkeepsTree]
   cases Gen.Src.c13TooManyErrors (Gen.Src.c13Total a.successes a.failures) a.failures a.err <;> rfl
 
+/-! ### kinds of exit, (value, error) pairing, and which effect is reached (`Kind`, `Nil<i>`, `marks`) -/
+
+/-- every path through `Cache.Get` ends in a `return` (none falls off the end of the body) -/
+theorem get_tree_kind_matches_source (found : Bool) (expires now : Nat) :
+    Gen.Src.c13GetTreeKind (Gen.Src.c13GetTree found expires now) = 1 := by
+  unfold Gen.Src.c13GetTree
+  cases found <;> by_cases h1 : expires > 0 <;> by_cases h2 : now > expires <;> simp [h1, h2, Gen.Src.c13GetTreeKind]
+
+/-- **(result, error) pairing of `parallelCheck`**: at the exit the source takes, the first result is the literal
+`nil` exactly when the model reports an error, the second result (the error) is the literal `nil` exactly when it
+does not, and every exit is a `return` -/
+theorem parallelCheck_tree_pairing_matches_source (E : Nat) (c : Cache) (now : Nat) (ps : List Payload)
+    (out : Nat → BatchOut) (order : List Nat) :
+    let a := (order.map out).foldl aggAcc { values := hits c now ps, successes := 0, failures := 0, err := false }
+    let exit := Gen.Src.c13ParallelCheckTree ps.length (toRun c now ps).length (a.successes + a.failures) a.failures a.err
+    (parallelCheck E c now ps out order).2.err = Gen.Src.c13ParallelCheckTreeNil1 exit ∧
+    (parallelCheck E c now ps out order).2.err = !Gen.Src.c13ParallelCheckTreeNil2 exit ∧
+    Gen.Src.c13ParallelCheckTreeKind exit = 1 := by
+  intro a exit
+  rw [parallelCheck_tree_matches_source]
+  show (parallelCheckExit _ _ _ a exit).2.err = _ ∧ (parallelCheckExit _ _ _ a exit).2.err = _ ∧ _
+  have hx : exit = 1 ∨ exit = 2 ∨ exit = 3 ∨ exit = 4 := by
+    simp only [exit, Gen.Src.c13ParallelCheckTree]
+    split
+    · exact Or.inl rfl
+    · split
+      · exact Or.inr (Or.inl rfl)
+      · split <;> split <;> simp
+  rcases hx with h | h | h | h <;> rw [h] <;>
+    simp [parallelCheckExit, Gen.Src.c13ParallelCheckTreeNil1, Gen.Src.c13ParallelCheckTreeNil2, Gen.Src.c13ParallelCheckTreeKind]
+
+/-- **(values, error) pairing of `CheckUpkeeps`**: `nil` values exactly with an error, a `nil` error exactly with
+values; both exits are `return`s -/
+theorem checkUpkeeps_tree_pairing_matches_source (a : Acc) :
+    let exit := Gen.Src.c13CheckUpkeepsTree
+      (Gen.Src.c13TooManyErrors (Gen.Src.c13Total a.successes a.failures) a.failures a.err)
+    (finish a).err = Gen.Src.c13CheckUpkeepsTreeNil1 exit ∧
+    (finish a).err = !Gen.Src.c13CheckUpkeepsTreeNil2 exit ∧
+    Gen.Src.c13CheckUpkeepsTreeKind exit = 1 := by
+  intro exit
+  rw [checkUpkeeps_tree_matches_source]
+  show (checkUpkeepsExit a exit).err = _ ∧ (checkUpkeepsExit a exit).err = _ ∧ _
+  simp only [exit, Gen.Src.c13CheckUpkeepsTree]
+  cases Gen.Src.c13TooManyErrors (Gen.Src.c13Total a.successes a.failures) a.failures a.err <;>
+    simp [checkUpkeepsExit, Gen.Src.c13CheckUpkeepsTreeNil1, Gen.Src.c13CheckUpkeepsTreeNil2, Gen.Src.c13CheckUpkeepsTreeKind]
+
+/-- **which effect an iteration of the look-up loop reaches** (one marked tree per effect, so that the two cannot
+be exchanged unnoticed): `result.Add(res)` is reached exactly when the model serves the payload from the cache,
+`toRun = append(toRun, payload)` exactly when the model hands it to the pipeline; and the hit path leaves the
+iteration with `continue` (kind 2 of the unmarked tree), the other path runs to the end of the body -/
+theorem lookup_marks_match_source (c : Cache) (now : Nat) (p : Payload) (ps : List Payload) :
+    let res := (get c now p.workID).getD default
+    let add := Gen.Src.c13LookupAddTreeKind (Gen.Src.c13LookupAddTree (get c now p.workID).isSome
+                 res.trigger.blockNumber p.trigger.blockNumber res.trigger.blockHash p.trigger.blockHash)
+    let run := Gen.Src.c13LookupRunTreeKind (Gen.Src.c13LookupRunTree (get c now p.workID).isSome
+                 res.trigger.blockNumber p.trigger.blockNumber res.trigger.blockHash p.trigger.blockHash)
+    let exit := Gen.Src.c13LookupTree (get c now p.workID).isSome res.trigger.blockNumber p.trigger.blockNumber
+                  res.trigger.blockHash p.trigger.blockHash
+    hits c now (p :: ps) = (if add = 4 then res :: hits c now ps else hits c now ps) ∧
+    toRun c now (p :: ps) = (if run = 4 then p :: toRun c now ps else toRun c now ps) ∧
+    Gen.Src.c13LookupTreeKind exit = (if exit = 1 then 2 else 0) := by
+  simp only [hits, toRun, List.filter_cons, hit, Gen.Src.c13LookupAddTree, Gen.Src.c13LookupRunTree, Gen.Src.c13LookupTree]
+  cases get c now p.workID with
+  | none => simp [Gen.Src.c13LookupAddTreeKind, Gen.Src.c13LookupRunTreeKind, Gen.Src.c13LookupTreeKind]
+  | some r =>
+    by_cases hb : r.trigger.blockNumber = p.trigger.blockNumber <;>
+      by_cases hh : r.trigger.blockHash = p.trigger.blockHash <;>
+      simp [hb, hh, Gen.Src.c13LookupAddTreeKind, Gen.Src.c13LookupRunTreeKind, Gen.Src.c13LookupTreeKind]
+
+/-- **when `wrapAggregate` writes the cache**: the statement `o.cache.Set(result.WorkID, result, …)` is reached
+(mark exit 1) exactly when the model's `aggOne` replaces the entry — `PipelineExecutionState == 0` first, then
+`!ok || result.Trigger.BlockNumber > c.Trigger.BlockNumber`; on every other path the cache is left as it is
+(`c` is the zero value when `!ok`) -/
+theorem aggOne_tree_matches_source (E now : Nat) (c : Cache) (r : CheckResult) :
+    let w := Gen.Src.c13CacheWriteTree r.pes (get c now r.workID).isSome r.trigger.blockNumber
+               ((get c now r.workID).getD default).trigger.blockNumber
+    aggOne E now c r = (if w = 1 then set c now E r.workID r else c) ∧
+    Gen.Src.c13CacheWriteTreeKind w = (if w = 1 then 4 else 0) := by
+  simp only [aggOne, Gen.Src.c13CacheWriteTree]
+  by_cases hp : r.pes = 0
+  · cases get c now r.workID with
+    | none => simp [hp, Gen.Src.c13CacheWriteTreeKind]
+    | some old =>
+      by_cases hg : r.trigger.blockNumber > old.trigger.blockNumber <;> simp [hp, hg, Gen.Src.c13CacheWriteTreeKind]
+  · simp [hp, Gen.Src.c13CacheWriteTreeKind]
+
 end AutoVerif.C13
